@@ -2,7 +2,7 @@
 parameter, switches on that parameter in the callee are pruned (so `get_bucket -> bucket_getter(.., false, false)` is not
 charged with the create branch)."""
 from collections import deque
-from facts import callee_of, op_local, op_const_val
+from facts import callee_of, op_local, op_const_val, strip_generics
 
 
 def pruned_blocks(fn, prune, facts=None):
@@ -74,6 +74,16 @@ def _local_consts(fn, live, prune, facts, depth=0):
             if t['k'] == 'call' and not t['dest']['pr']:
                 l = t['dest']['l']
                 v = None
+                c0 = callee_of(t)
+                if c0 and c0['path'] in ('std::cmp::PartialEq::eq', 'std::cmp::PartialEq::ne') and len(t['args']) == 2:
+                    # derived `==` between two unit-like enum values whose variants are known (a parameter under specialisation, a promoted constant)
+                    va = _variant_behind(fn, t['args'][0], prune, known)
+                    vb = _variant_behind(fn, t['args'][1], prune, known)
+                    if va is not None and vb is not None and va[0] == vb[0]:
+                        v = (va[1] == vb[1]) if c0['path'].endswith('::eq') else (va[1] != vb[1])
+                    if v is not None:
+                        cand.setdefault(l, set()).add(v)
+                        continue
                 if facts is not None and depth < 3:
                     c = callee_of(t)
                     g = None
@@ -98,6 +108,46 @@ def _local_consts(fn, live, prune, facts, depth=0):
             break
         known = new
     return known
+
+
+def _variant_behind(fn, operand, prune, known, depth=0):
+    """(adt, variant index) of the unit-like enum value an operand refers to, through `&x`, `&*p` and promoted constants; None if unknown"""
+    if depth > 6:
+        return None
+    if operand.get('k') == 'const':
+        sname = (operand.get('c') or {}).get('s') or ''
+        if 'promoted[' in sname:
+            try:
+                i = int(sname.rsplit('promoted[', 1)[1].split(']')[0])
+            except ValueError:
+                return None
+            for pr in (getattr(fn, 'j', {}) or {}).get('promoted', []) or []:
+                if pr.get('i') == i:
+                    return (pr['adt'], pr['vi'])
+        return None
+    p = operand.get('p')
+    if p is None:
+        return None
+    l = p['l']
+    if all(e['k'] == 'deref' for e in p['pr']):
+        v = prune.get(l) if l in prune else known.get(l)
+        if isinstance(v, tuple) and v[0] == 'v':
+            ty = strip_generics(fn.locals[l]['ty']).lstrip('&').strip()
+            return (ty, v[1])
+        ps, _inv = param_source(fn, l)
+        if ps is not None and isinstance(prune.get(ps), tuple):
+            ty = strip_generics(fn.locals[ps]['ty']).lstrip('&').strip()
+            return (ty, prune[ps][1])
+    ds = _whole_defs(fn).get(l, [])
+    if len(ds) == 1 and ds[0] is not None:
+        rv = ds[0]
+        if rv['k'] in ('ref', 'rawptr'):
+            return _variant_behind(fn, {'k': 'copy', 'p': rv['p']}, prune, known, depth + 1)
+        if rv['k'] == 'use':
+            return _variant_behind(fn, rv['op'], prune, known, depth + 1)
+        if rv['k'] == 'agg' and rv.get('ak') == 'adt' and not rv.get('ops') and rv.get('vi') is not None:
+            return (rv.get('adt'), rv['vi'])
+    return None
 
 
 _EVAL_MEMO = {}
